@@ -40,7 +40,8 @@ TIERS = {
 REQUIRED_PROBES = {"quick": ["unused_vtimezone_present", "unknown_id_used", "custom_id_known_via_cache",
                              "amz_added", "amz_skipped_unknown", "nested_depth3", "multi_valued_entry",
                              "roundtrip", "restart_made_id_unknown", "duplicate_vtimezone", "tzidless_vtimezone",
-                             "windows_id", "slash_prefixed_id", "narrow_window"]}
+                             "windows_id", "slash_prefixed_id", "narrow_window", "zoned_property_removed",
+                             "zoned_property_replaced", "tzid_parameter_edited_in_place"]}
 REQUIRED_PROBES["thorough"] = REQUIRED_PROBES["quick"]
 
 IANA = ["Europe/Berlin", "America/New_York", "Asia/Kolkata"]
@@ -81,7 +82,7 @@ class Node:
     def __init__(self, nid, kind, vtz_id=None):
         self.id = nid
         self.kind = kind
-        self.tzids = []        # one entry per property entry carrying a TZID parameter
+        self.tzids = []        # [NAME, tzid] per property entry carrying a TZID parameter
         self.children = []
         self.vtz_id = vtz_id   # for VTIMEZONE nodes
 
@@ -101,7 +102,7 @@ class Node:
 
 
 def m_used(root):
-    return {t for n in root.walk() for t in n.tzids}
+    return {t for n in root.walk() for _, t in n.tzids}
 
 
 def m_present(root):
@@ -150,7 +151,8 @@ def generate(rng, cfg):
     for c in range(ncal):
         trace.append([c, "new_cal", {}])
         models[c] = Node(0, "VCALENDAR")
-    weights = [("add_comp", 10), ("add_prop", 5), ("add_vtz", 4), ("amz", 4), ("roundtrip", 2), ("query", 1),
+    weights = [("add_comp", 10), ("add_prop", 5), ("del_prop", 2.5), ("replace_prop", 2), ("edit_param", 1.5),
+               ("add_vtz", 4), ("amz", 4), ("roundtrip", 2), ("query", 1),
                ("other_parse", 3), ("provider_switch", 1), ("soft_restart", 1.5)]
     weights = [(o, w) for o, w in weights if o in ("add_comp", "amz") or rng.random() < 0.85]
     nsteps = rng.randint(4, cfg.get("max_steps", 24))
@@ -179,6 +181,40 @@ def generate(rng, cfg):
             p = _propspec(rng, node.kind, ids, "api")
             node.tzids += _entry_tzids([p])
             trace.append([c, "add_prop", {"comp": node.id, "prop": p}])
+        elif op in ("del_prop", "replace_prop", "edit_param"):
+            nodes = [n for n in root.walk() if n.kind in KINDS and n.tzids]
+            if not nodes:
+                continue
+            node = rng.choice(nodes)
+            name = rng.choice(sorted({nm for nm, _ in node.tzids}))
+            if op == "del_prop":
+                how = rng.choice(["pop", "delitem", "attr"])
+                if how == "attr" and not (node.kind in ("VEVENT", "VTODO") and name in ("DTSTART", "DTEND", "DUE")):
+                    how = "pop"
+                node.tzids = [e for e in node.tzids if e[0] != name]
+                trace.append([c, "del_prop", {"comp": node.id, "name": name, "how": how}])
+            elif op == "replace_prop":
+                p = _propspec(rng, node.kind, ids, "api")
+                p["name"] = name
+                if name in LIST_PROPS:
+                    p["shape"], p["vals"] = "list", [rng.choice(WALLS)]
+                elif name == "FREEBUSY":
+                    p["shape"], p["vals"] = "period", [rng.choice(WALLS)]
+                elif name == "X-WHEN":
+                    p["shape"], p["tzkind"] = "xparam", "param"
+                else:
+                    p["shape"] = "single"
+                node.tzids = [e for e in node.tzids if e[0] != name] + _entry_tzids([p])
+                trace.append([c, "replace_prop", {"comp": node.id, "prop": p}])
+            else:
+                if sum(1 for e in node.tzids if e[0] == name) != 1:
+                    continue        # periods parsed from one FREEBUSY line share one parameter object
+                newid = rng.choice(ids)
+                for e in node.tzids:
+                    if e[0] == name:
+                        e[1] = newid
+                        break
+                trace.append([c, "edit_param", {"comp": node.id, "name": name, "tzid": newid}])
         elif op == "add_vtz":
             used = sorted(m_used(root), key=POOL.index)
             present = [p for p in m_present(root) if p]
@@ -236,10 +272,11 @@ def _entry_tzids(props):
     for p in props:
         if p["tzid"] is None:
             continue
+        name = p["name"].upper()
         if p["shape"] == "period":
-            out += [p["tzid"]] * len(p["vals"])   # one FREEBUSY entry per period
+            out += [[name, p["tzid"]] for _ in p["vals"]]   # one FREEBUSY entry per period
         else:
-            out.append(p["tzid"])
+            out.append([name, p["tzid"]])
     return out
 
 
@@ -253,6 +290,12 @@ def abstract_sig(run):
             parts.append("c%s:%s:%s/%s" % (c, op, a["prop"]["name"], id_class(a["prop"]["tzid"])))
         elif op == "add_vtz":
             parts.append("c%s:%s:%s:%s" % (c, op, id_class(a["tzid"]), a["via"]))
+        elif op == "del_prop":
+            parts.append("c%s:del:%s:%s" % (c, a["name"], a["how"]))
+        elif op == "replace_prop":
+            parts.append("c%s:replace:%s/%s" % (c, a["prop"]["name"], id_class(a["prop"]["tzid"])))
+        elif op == "edit_param":
+            parts.append("c%s:edit:%s/%s" % (c, a["name"], id_class(a["tzid"])))
         elif op == "amz":
             parts.append("c%s:amz:%s" % (c, "w" if a["window"] else "d"))
         elif op == "other_parse":
@@ -437,6 +480,44 @@ def execute(run, res):
                 continue
             node.tzids += _entry_tzids([a["prop"]])
             _probe_props(res, [a["prop"]])
+        elif op in ("del_prop", "replace_prop", "edit_param"):
+            comp = K.objs.get(a["comp"])
+            node = _node(K.root, a["comp"])
+            name = a["name"] if op != "replace_prop" else a["prop"]["name"].upper()
+            if comp is None or node is None or not any(e[0] == name for e in node.tzids):
+                res.skipped += 1
+                continue
+            res.ops[op] += 1
+            try:
+                if op == "del_prop":
+                    if a["how"] == "pop":
+                        comp.pop(name.lower())
+                    elif a["how"] == "delitem":
+                        del comp[name]
+                    else:
+                        delattr(comp, name)
+                    node.tzids = [e for e in node.tzids if e[0] != name]
+                    res.probe("zoned_property_removed")
+                elif op == "replace_prop":
+                    tmp = C.Component()
+                    api_add(tmp, a["prop"])
+                    comp[name] = tmp[name]
+                    node.tzids = [e for e in node.tzids if e[0] != name] + _entry_tzids([a["prop"]])
+                    res.probe("zoned_property_replaced")
+                else:
+                    value = comp[name]
+                    if isinstance(value, list) or sum(1 for e in node.tzids if e[0] == name) != 1:
+                        res.skipped += 1
+                        continue
+                    value.params["TZID"] = a["tzid"]
+                    for e in node.tzids:
+                        if e[0] == name:
+                            e[1] = a["tzid"]
+                            break
+                    res.probe("tzid_parameter_edited_in_place")
+            except Exception as e:
+                res.violate(f"C18/{op}/raised:{type(e).__name__}", stepno, repr(e))
+                continue
         elif op == "add_vtz":
             parent = K.objs.get(a["parent"])
             pnode = _node(K.root, a["parent"])
